@@ -29,11 +29,26 @@ func (c *conn) sendLoop(ctx async.Context) status.Status {
 			return st
 		}
 
+		// Get the wait channel first and poll again, a message written
+		// during the flush must not be missed (the queue wait only looks
+		// at its first block).
+		wait := c.writeq.ReadWait()
+		b, ok, st = c.writeq.Read()
+		switch {
+		case !st.OK():
+			return st
+		case ok:
+			if st := c.sendMessage(b); !st.OK() {
+				return st
+			}
+			continue
+		}
+
 		// Wait for more messages
 		select {
 		case <-ctx.Wait():
 			return ctx.Status()
-		case <-c.writeq.ReadWait():
+		case <-wait:
 		}
 	}
 }
